@@ -341,6 +341,13 @@ impl Prop for C02 {
                 let (ty, b) = byte_sweep(case);
                 out.push(format!("dec {} {} x{}", ty, Lim::default().show(), hex(&b)));
             }
+            // length-field sweep: 8 length-bearing leaves x 12 declared lengths (-2, -1, 0, 1, i32::MIN, i32::MIN+1,
+            // i32::MAX, limit-1, limit, limit+1, limit+2, 3) under small limits
+            {
+                let lim = Lim { max_str: 2 + (case % 3), max_bytes: 2 + (case % 4), max_arr: 2 + (case % 2), max_depth: 10, max_msg: 0, named: 0 };
+                let (ty, b) = length_sweep(case, &lim);
+                out.push(format!("dec {} {} x{}", ty, lim.show(), hex(&b)));
+            }
             // (iii) nesting families
             {
                 let (ty, prefix, tail) = rng.pick(&fams).clone();
